@@ -102,6 +102,15 @@ def check_one(case):
             got = outcome(g.compare_pos_in_iterables, fa, fb)
             if got != ("ok", want):
                 return "compare_pos", f"compare_pos_in_iterables({a},{b}) -> {got}, expected {want}", {"got": got}
+        # the caller's own containers: the comparison must not consume or change them (a second comparison of the very
+        # same objects, in both argument orders, answers the same)
+        la, lb = list(a), list(b)
+        for rnd in range(2):
+            for x, y, tag in ((la, lb, "a,b"), (lb, la, "b,a")):
+                got = outcome(g.compare_pos_in_iterables, x, y)
+                if got != ("ok", want) or la != list(a) or lb != list(b):
+                    return "compare_pos", (f"compare_pos_in_iterables on the caller's lists {a},{b} (call {2 * rnd + (tag == 'b,a') + 1} "
+                                           f"on the same objects, order {tag}) -> {got}, expected {want}; lists afterwards {la},{lb}"), {"got": got}
         # unhashable elements (lists) and a mix of hashable / unhashable ones, also through one-shot iterables
         for wrap in (lambda x: [x], lambda x: [x] if x else x):
             ua, ub = [wrap(x) for x in a], [wrap(x) for x in b]
@@ -147,6 +156,22 @@ def check_one(case):
             first = batch if width == 0 else batch[0]
             if len(first) == 0 or (len(first) != b and bi != nb - 1):
                 raise AssertionError("reference itself wrong")
+        # the Batcher is a view of the caller's sequence(s), not a copy: after the caller appended to them, the batches and
+        # the number of batches describe ONE input - the grown one (or, for an implementation that copies, the one at
+        # construction time) - never a mixture of old count and new content
+        grow = 1 + (n + b) % 3
+        for k, x in enumerate(base):
+            x.extend(range(k * 1000 + n, k * 1000 + n + grow))
+        n2 = n + grow
+        nb2 = (n2 + b - 1) // b
+        if width == 0:
+            want2 = [base[0][i * b:(i + 1) * b] for i in range(nb2)]
+        else:
+            want2 = [tuple(x[i * b:(i + 1) * b] for x in base) for i in range(nb2)]
+        got = (outcome(lambda: len(bt)), outcome(lambda: list(bt)), outcome(lambda: [bt[i] for i in range(len(bt))]))
+        if got != (("ok", nb2), ("ok", want2), ("ok", want2)) and got != (("ok", nb), ("ok", want), ("ok", want)):
+            return "batcher", (f"Batcher(n={n}, batch={b}, w={width}) after the caller appended {grow} item(s): (len, iteration, "
+                               f"indexing) -> {str(got)[:300]}; neither the grown input ({nb2} batches) nor the original one ({nb})"), {}
         return None
     if fam == "batcher-iter":
         n, b, width = case["n"], case["b"], case["w"]
